@@ -135,6 +135,10 @@ func (w *World) RunInstance(inst Instance, s *sym.Pool) (res *InstResult) {
 		return
 	}
 	c := sym.NewCtx()
+	c.MaxTerms = 12_000_000
+	if v := os.Getenv("VP_MAXTERMS"); v != "" {
+		fmt.Sscan(v, &c.MaxTerms)
+	}
 	x := vexec.New(c, w.Prog)
 	x.InstallVP(inst.Params)
 	x.GlobInit = w.GlobInit(x)
@@ -145,6 +149,7 @@ func (w *World) RunInstance(inst Instance, s *sym.Pool) (res *InstResult) {
 		x.LoopBounds[k] = v
 	}
 	x.Reindex = !inst.Opt.NoReindex
+	x.Trace = os.Getenv("VP_TRACE") != ""
 	if inst.Opt.Setup != nil {
 		inst.Opt.Setup(x, w)
 	}
@@ -154,6 +159,13 @@ func (w *World) RunInstance(inst Instance, s *sym.Pool) (res *InstResult) {
 			if r := recover(); r != nil {
 				if ee, ok := r.(*vexec.ExecError); ok {
 					res.Err = fmt.Errorf("not encodable: %s", ee.Msg)
+					return
+				}
+				if tb, ok := r.(sym.TermBudget); ok {
+					res.Err = fmt.Errorf("term budget exceeded (%d terms) - encoding blew up", tb.N)
+					if os.Getenv("VP_DEBUG") != "" {
+						fmt.Println(string(debug.Stack()))
+					}
 					return
 				}
 				res.Err = fmt.Errorf("executor crashed: %v", r)
